@@ -72,8 +72,10 @@ def small_doc(draw, k):
                 "value_origin": draw(st.one_of(st.none(), _W)), "val_card": None}
 
     def sec(depth, i):
-        return {"k": "sec", "name": draw(st.sampled_from(["alpha", "beta", "gamma"])) + str(i),
-                "type": draw(st.sampled_from(["t", "alpha", "rec 1", "beta"])), "id": None,
+        sname = draw(st.sampled_from(["alpha", "beta", "gamma"])) + str(i)
+        return {"k": "sec", "name": sname,
+                # a Section whose type repeats its name is common in real files ("subject"/"subject")
+                "type": draw(st.sampled_from(["t", "alpha", "rec 1", "beta", sname])), "id": None,
                 "definition": draw(st.one_of(st.none(), _W)), "reference": draw(st.one_of(st.none(), _W)),
                 "repository": None, "link": None, "include": None, "sec_card": None, "prop_card": None,
                 "props": [prop(j) for j in range(draw(st.integers(0, 3)))],
@@ -110,6 +112,8 @@ def cases(draw):
     pairs = pairs[:4] if mode == "match" else pairs[:3]
     return {"docs": docs, "pairs": pairs, "form": draw(st.sampled_from(["string", "dict"])),
             "reuse": draw(st.booleans()),
+            # ask for the same value in two attributes of one kind of object (name and type, ...)
+            "same": draw(st.integers(0, 2)) == 0,
             "mode": mode, "seed": draw(st.integers(0, 10 ** 6))}
 
 
@@ -305,9 +309,22 @@ def body(case):
             pairs.append((kind, attr, tuple(vals)))
         else:
             pairs.append((kind, attr, val))
+    if case.get("same"):
+        for j in range(1, len(pairs)):
+            for i in range(j):
+                if pairs[i][0] == pairs[j][0] and "value" not in (pairs[i][1], pairs[j][1]) and \
+                        "id" not in (pairs[i][1], pairs[j][1]):
+                    pool = harvest(model, pairs[j][0], pairs[j][1])
+                    both = [v for v in harvest(model, pairs[i][0], pairs[i][1]) if v in pool]
+                    if both:
+                        v = both[case["pairs"][j][2] % len(both)]
+                        pairs[i] = (pairs[i][0], pairs[i][1], v)
+                        pairs[j] = (pairs[j][0], pairs[j][1], v)
+                    break
     mode = case["mode"]
     fails = []
-    classes = ["mode:" + mode, "form:" + case["form"], "shape:" + "+".join(sorted({p[0] for p in pairs}))]
+    classes = ["mode:" + mode, "same_value:%s" % (len({(p[0], p[2]) for p in pairs if p[1] != "value"}) <
+                                                 len([p for p in pairs if p[1] != "value"])), "form:" + case["form"], "shape:" + "+".join(sorted({p[0] for p in pairs}))]
     classes += ["attr:%s.%s" % (p[0], p[1]) for p in pairs]
     loc = dict(mode=mode, form=case["form"], kinds=sorted({p[0] for p in pairs}),
                attrs=sorted({"%s.%s" % (p[0], p[1]) for p in pairs}))
